@@ -106,7 +106,7 @@ def factory_vd(ns, props, relational=False, **kw):
                 return None
             mk = lambda mm: mk_case_vd(eng, tp, mm)
             obs = []
-            mutated = any(e['kind'] in ('arg_mutation', 'global_store', 'global_mutation') for e in eng.events)
+            mutated = any(e['kind'] == 'arg_mutation' for e in eng.events)
             if is_ret(out):
                 if 'C05' in props:
                     obs.append(oblige(eng, 'accepted => trusted metadata well formed, role of exactly that name delegated, its keys and threshold met, declared type = role',
@@ -132,7 +132,7 @@ def factory_vd(ns, props, relational=False, **kw):
                         if not exc_in(out, ('UnknownRoleError',)):
                             obs.append(oblige(eng, 'undelegated role is an unknown-role error', z3.And(argsok, o['type_bound'], z3.Not(o['found'])), mk))
             if 'C12' in props and mutated:
-                obs.append(oblige(eng, 'verification does not modify its arguments or module state', True, mk))
+                obs.append(oblige(eng, 'verification does not modify its arguments', True, mk))
             w = mk(m)
             w['predicted'] = predicted(out)
             reach = ['accepts'] if is_ret(out) else ['rejects:' + out[1]]
@@ -329,8 +329,8 @@ def factory_vr(ns, props, **kw):
                     elif not exc_in(out, ('MetadataVerificationError',)):
                         obs.append(oblige(eng, 'root version mismatch is a metadata verification error',
                                           z3.And(o['wfT'], o['wfU'], o['both_root'], o['hasT'], o['hasU'], z3.Not(o['succ'])), mk))
-            if ('C12' in props or 'C04' in props) and any(e['kind'] in ('arg_mutation', 'global_store', 'global_mutation') for e in eng.events):
-                obs.append(oblige(eng, 'verification does not modify its arguments or module state', True, mk))
+            if ('C12' in props or 'C04' in props) and any(e['kind'] == 'arg_mutation' for e in eng.events):
+                obs.append(oblige(eng, 'verification does not modify its arguments', True, mk))
             w = mk(m)
             w['predicted'] = predicted(out)
             reach = ['accepts'] if is_ret(out) else ['rejects:' + out[1]]
